@@ -30,18 +30,20 @@ def run(ctx):
     if 'B' in ctx.stages:
         cfgp = pc.mc_cfg('pit-B', 'v2', 2, 2, 'small', 'v2two', invs=[], props=[])
         for front, vmap in (('v2', None), ('legacy', {'PASS': 'T', 'FAIL': 'F'})):
-            pc.stage_b(ctx, front, cfgp, 'small 2 entries MaxT=2', devs=DEVS[front], vmap=vmap, graph_key='small22',
+            pc.stage_b(ctx, front, cfgp, 'small 2 entries MaxT=2', devs=DEVS[front], report_devs=False, vmap=vmap, graph_key='small22',
                        max_paths=ctx.pick(900, 20000))
         for front, V in (('v2', 'v2two'), ('legacy', 'legacy')):
             cfgp = pc.mc_cfg('pit-B-defer-' + front, front, 2, ctx.pick(1, 2), 'timing', V, defer='Def_both', invs=[], props=[])
-            pc.stage_b(ctx, front, cfgp, 'deferred await 2 entries', devs=DEVS[front], max_paths=ctx.pick(500, 12000))
+            pc.stage_b(ctx, front, cfgp, 'deferred await 2 entries', devs=DEVS[front], report_devs=False, max_paths=ctx.pick(500, 12000))
         # behaviours sampled from a 3-entry configuration with every dimension open (too large for a cover)
         for front, V, vmap in (('v2', 'v2two', None), ('legacy', 'legacy', None)):
             cfgp = pc.mc_cfg('pit-S-' + front, front, 3, 3, 'match', V, R='R_two', E='E_all', defer='Def_both', invs=[], props=[])
-            pc.stage_b_sim(ctx, front, cfgp, '3 entries match/envelopes/defer', ctx.pick(300, 6000), 16, devs=DEVS[front])
+            pc.stage_b_sim(ctx, front, cfgp, '3 entries match/envelopes/defer', ctx.pick(300, 6000), 16, devs=DEVS[front], report_devs=False)
     if 'C' in ctx.stages:
         for front in ('v2', 'legacy'):
-            pc.stage_c(ctx, front, ctx.pick(300, 5000), 40, devs=DEVS[front])
+            # the legacy slow-validator deviation is C05's finding (C03's own text calls Data that arrived in time the
+            # right outcome); here it only explains traces and is counted in evidence (explained_by_legacySlowValidator)
+            pc.stage_c(ctx, front, ctx.pick(300, 5000), 40, devs=DEVS[front], report_devs=False)
 
 
 IMPL_INVS = ['PendingReachable', 'NoResidueImpl', 'OneNode', 'NoEmptyNode', 'NoInternalError']
